@@ -194,3 +194,7 @@ def strategy(tier):
 
 def n_random(tier):
     return 9600 if tier == "quick" else 200000
+
+
+def files(case):
+    return {"main.ms": ms.program(PRELUDE + [("print", S("@start"))] + case["stmts"] + [("print", S("@end"))], minparen=True)[0]}
